@@ -207,6 +207,46 @@ def tag_multisets(pool, maxsize):
         for c in itertools.combinations_with_replacement(range(len(pool)), r):
             yield c
 
+def version_value_objects(lab, mon):
+    """behave.active_tag.python.VersionValueObject (behind python.min_version / python.max_version): dotted versions compare as
+    tuples of numbers with the declared operator, malformed versions count as non-matching."""
+    import operator as op
+    from behave.active_tag.python import VersionValueObject
+    tm = lab.tm
+    tag_values = ["2.5.0", "2.5.1", "2.5.2", "2.6", "2", "2.5.1.1", "3", "2.5.10", "2.5.x", "", "two"]
+
+    def vt(text):
+        return tuple(int(x) for x in text.split("."))
+    for current in ((2, 5, 1), "2.5.1", (2, 5), "2.5"):
+        cur_t = current if isinstance(current, tuple) else vt(current)
+        for opname, fn in (("ge", op.ge), ("le", op.le), ("eq", op.eq)):
+            vo = VersionValueObject(current, fn)
+            for tv in tag_values:
+                try:
+                    want = bool(fn(cur_t, vt(tv)))
+                except ValueError:
+                    want = False
+                case = {"kind": "version", "current": current if isinstance(current, str) else list(current), "operator": opname, "tag_value": tv}
+                mon.case(("version", repr(current), opname, tv), True)
+                try:
+                    got = bool(vo.matches(tv))
+                except Exception as ex:
+                    got = repr(ex)
+                mon.check("valueobject.version_compare", got == want, lambda: dict(case=case, got=got, want=want))
+            # the same through a matcher: use.with_app.min_version=X excludes iff it does not match
+            m = tm.ActiveTagMatcher({"app.version": vo})
+            for tv in tag_values:
+                try:
+                    want = bool(fn(cur_t, vt(tv)))
+                except ValueError:
+                    want = False
+                tag = "use.with_app.version=%s" % tv
+                if not tv:
+                    continue
+                got = m.should_exclude_with([tag])
+                mon.check("valueobject.version_compare", got == (not want),
+                          lambda: dict(case={"current": repr(current), "operator": opname, "tag": tag}, excluded=got, want_excluded=not want))
+
 
 def run(spec, mon):
     import logging
@@ -216,6 +256,8 @@ def run(spec, mon):
     tier = spec.get("tier", "quick")
     shard, of = spec["shard"], spec["of"]
     rng = random.Random(spec["seed"])
+    if shard == 0:
+        version_value_objects(lab, mon)
     pool = POOL_QUICK if tier == "quick" else POOL_QUICK + POOL_MORE
     maxsize = 3 if tier == "quick" else 4
     all_cfgs = list(configs())
@@ -285,6 +327,12 @@ def run(spec, mon):
         sep = rng.choice([":", "==", "="])
         prefixes = rng.choice([["require", "not_require"], ["with", "notwith", "only"], ["use", "not"]])
         config = rng.choice(all_cfgs)
+        ren = {}
+        if k % 3 == 1:
+            # category names are words in the Unicode sense (gr\u00f6\u00dfe, \u30d6\u30e9\u30a6\u30b6, niveau.\u00e9tage)
+            ren = {"os": "gr\u00f6\u00dfe", "flag": "\u30d6\u30e9\u30a6\u30b6", "a.b": "niveau.\u00e9tage"}
+            config = {ren.get(c, c): v for c, v in config.items()}
+            mon.seen("category_name_class", "non_ascii")
         tags = []
         for _ in range(rng.randint(0, 4)):
             base = rng.choice(pool)
@@ -292,7 +340,7 @@ def run(spec, mon):
                 tags.append(base)
             else:
                 pref = rng.choice(prefixes)
-                tags.append(A(pref, base[2], base[3], sep))
+                tags.append(A(pref, ren.get(base[2], base[2]), base[3], sep))
         # default-schema tags are ordinary tags for a matcher with other prefixes/separator
         foreign = rng.choice(POOL_QUICK[:7])
         if prefixes != ["use", "not"] or sep != "=":
